@@ -446,6 +446,8 @@ def small_state_checks(rep, prop):
 def extra_checks(rep, tier):
     fetcher_check(rep, tier, "C46")
     small_state_checks(rep, "C46")
+    from contracts import immutable_grid
+    immutable_grid.grid_check(rep, tier, "C46")
 
 
 class SegmentationOutcome(Spec):
